@@ -6,6 +6,7 @@ import (
 	"os"
 	"path/filepath"
 	"go/ast"
+	"go/printer"
 	"go/token"
 	"go/types"
 	"sort"
@@ -175,6 +176,67 @@ func (u *Unit) modEntry(e ast.Expr, env *Env, out map[string][]func(a string) st
 					out[l.Site] = append(out[l.Site], func(a string) string { return and(le(lo, a), lt(a, hi)) })
 				}
 				return
+			case "allof":
+				// allof(T.f): every cell of field f of struct type T ([pkg.]T.f) - a coarse, type-based frame entry
+				// allof(T): every field of T
+				{
+					var b strings.Builder
+					printer.Fprint(&b, token.NewFileSet(), call.Args[0])
+					var whole types.Type
+					func() {
+						defer func() { recover() }()
+						whole = env.specType(shortPkgOf(env), b.String())
+					}()
+					if whole != nil {
+						if stu, ok := whole.Underlying().(*types.Struct); ok {
+							for i := 0; i < stu.NumFields(); i++ {
+								for _, l := range leavesOf(stu.Field(i).Type(), fieldHint(whole, i)) {
+									u.sortOfSite(l.Site, l.Sort)
+									out[l.Site] = append(out[l.Site], func(a string) string { return "true" })
+								}
+							}
+							return
+						}
+					}
+				}
+				sel, ok := call.Args[0].(*ast.SelectorExpr)
+				if !ok {
+					specErrf("allof expects Type.field")
+				}
+				var tname string
+				switch x := sel.X.(type) {
+				case *ast.Ident:
+					tname = x.Name
+				case *ast.SelectorExpr:
+					if pk, ok := x.X.(*ast.Ident); ok {
+						tname = pk.Name + "." + x.Sel.Name
+					}
+				}
+				st := env.specType(shortPkgOf(env), tname)
+				stu, ok := st.Underlying().(*types.Struct)
+				if !ok {
+					specErrf("allof: %s is not a struct type", tname)
+				}
+				for i := 0; i < stu.NumFields(); i++ {
+					if stu.Field(i).Name() == sel.Sel.Name {
+						for _, l := range leavesOf(stu.Field(i).Type(), fieldHint(st, i)) {
+							u.sortOfSite(l.Site, l.Sort)
+							out[l.Site] = append(out[l.Site], func(a string) string { return "true" })
+						}
+						return
+					}
+				}
+				specErrf("allof: no field %s in %s", sel.Sel.Name, tname)
+			case "allelems":
+				// allelems(T): every cell that holds an element of type T (slice and array elements, new(T) cells)
+				var b strings.Builder
+				printer.Fprint(&b, token.NewFileSet(), call.Args[0])
+				t := env.specType(shortPkgOf(env), b.String())
+				for _, l := range leavesOf(t, "elem") {
+					u.sortOfSite(l.Site, l.Sort)
+					out[l.Site] = append(out[l.Site], func(a string) string { return "true" })
+				}
+				return
 			case "mapof":
 				m := env.eval(call.Args[0])
 				ws := newWriteSet()
@@ -295,6 +357,14 @@ func (f *Frame) callByContract(st *state, callee *ssa.Function, ct *FuncContract
 	st.mem.alloc = na
 	for _, s := range sites {
 		srt := ws.sites[s]
+		if s == "ghost.clock" {
+			// the callee reads the clock: time passes (monotonically) during the call
+			old := u.arr(st.mem, s, srt)
+			h := u.ctx.freshConst(f.prefix+".callclock", SArr(SInt, srt))
+			u.putArr(st.mem, s, h)
+			u.ctx.assert("call-clock", implies(st.reach, and(app("bvsle", sel(old, "0"), sel(h, "0")), app("bvsle", sel(h, "0"), bvLitU(1<<62, 64)))))
+			continue
+		}
 		if len(ranges[s]) == 0 {
 			// The callee writes this site only in memory it allocates itself. Cells at or above the allocation pointer
 			// are unconstrained in the caller's heap, so the same array can stand for the heap after the call: the
@@ -1373,4 +1443,11 @@ func saveStrategy() {
 	}
 	data, _ := json.MarshalIndent(strategyMap, "", " ")
 	os.WriteFile(filepath.Join(verifRoot(), "strategy.json"), append(data, '\n'), 0o644)
+}
+
+func shortPkgOf(env *Env) string {
+	if env.pkg != nil {
+		return shortPkg(env.pkg.Path())
+	}
+	return ""
 }
